@@ -42,7 +42,15 @@ struct Summary {
     bool exhaustive = true;
     std::string bound;
     unsigned long long digest = 1469598103934665603ULL; // FNV-1a over every (case -> observed output); used by C20
-    void digestAdd(const std::string &x) { for (unsigned char c : x) { digest ^= c; digest *= 1099511628211ULL; } digest ^= 0xff; digest *= 1099511628211ULL; }
+    // with VERIF_DUMP=<file> in the environment every (case => output) line is also written out, so that two builds whose digests
+    // differ can be diffed down to the first differing case (C20)
+    void digestAdd(const std::string &x)
+    {
+        for (unsigned char c : x) { digest ^= c; digest *= 1099511628211ULL; }
+        digest ^= 0xff; digest *= 1099511628211ULL;
+        static FILE *dump = getenv("VERIF_DUMP") ? fopen(getenv("VERIF_DUMP"), "w") : nullptr;
+        if (dump) { fputs(jesc(x).c_str(), dump); fputc('\n', dump); }
+    }
 
     void violate(const std::string &key, const std::string &what, const std::string &replayJson)
     {
